@@ -59,7 +59,7 @@ def gen_cases(tier, seed):
 
 def required(tier):
     return {"rt.decided": 700, "invalid_len.refused": 30, "sweep.words": 10000, "sweep.accepted": 200, "mut.decided": 1500,
-            "mut.class.non_list_word": 100, "mut.class.case_variant": 200, "mut.cli_decided": 500, "mut.ref_accepts": 5, "seed.decided": 70, "seed.class.also_electrum_seed": 6, "suffix.pairs": 6, "seed.class.needs_nfkd": 20, "wordlist.pinned": 1, "cli.mnemonics": 35, "argtypes.calls": 15}
+            "mut.class.non_list_word": 100, "mut.class.case_variant": 200, "mut.class.unicode_compat": 150, "mut.cli_decided": 500, "mut.ref_accepts": 5, "seed.decided": 70, "seed.class.also_electrum_seed": 6, "suffix.pairs": 6, "seed.class.needs_nfkd": 20, "wordlist.pinned": 1, "cli.mnemonics": 35, "cli.bad_entropy_lengths": 300, "argtypes.calls": 15}
 
 
 def exhaustive(tier, counts):
@@ -236,6 +236,16 @@ def run_case(kind, params, ctx):
             muts.append(("unicode_lookalike", base[:ki[0]] + [base[ki[0]].replace("k", "\u212a")] + base[ki[0] + 1:]))
         muts.append(("unicode_lookalike", base[:i] + [base[i] + "\u200b"] + base[i + 1:]))
         muts.append(("unicode_lookalike", base[:i] + [base[i].replace("a", "\u0430", 1) if "a" in base[i] else base[i] + "\u0301"] + base[i + 1:]))
+        # compatibility spellings that Unicode normalisation (NFKC/NFKD) folds onto list words: full-width letters, ligatures
+        # (fi fl ff ffi ffl st), superscript / circled letters - different strings, hence not list words
+        fw = lambda w: chr(0xFF41 + ord(w[0]) - 0x61) + w[1:]
+        muts.append(("unicode_compat", base[:i] + [fw(base[i])] + base[i + 1:]))
+        muts.append(("unicode_compat", [fw(w) for w in base]))
+        for lig, rep_ in (("ffi", "\ufb03"), ("ffl", "\ufb04"), ("fi", "\ufb01"), ("fl", "\ufb02"), ("ff", "\ufb00"), ("st", "\ufb06")):
+            js = [j for j, w in enumerate(base) if lig in w]
+            if js:
+                muts.append(("unicode_compat", base[:js[0]] + [base[js[0]].replace(lig, rep_, 1)] + base[js[0] + 1:]))
+        muts.append(("unicode_compat", base[:i] + [base[i][:-1] + chr(0x24D0 + ord(base[i][-1]) - 0x61)] + base[i + 1:]))
         via_cli = params.get("cli", False)
         for cls, seq in muts:
             mn = " ".join(seq)
@@ -279,6 +289,14 @@ def run_case(kind, params, ctx):
         if not r["ok"] or r["out"].decode(errors="replace").strip() != exp:
             ctx.violation(f"cli/from-entropy-wrong/fmt:{fmt}/last-byte:{'text-framing' if params['edge'] is not None else 'any'}", f"bits mnemonic --from-entropy ({fmt}, entropy {ent.hex()}) printed {r['out'][:60]!r} (ret {r['ret']!r})")
             return
+        # entropy of other lengths (incl. NONE AT ALL) is refused through the command line too, in every input format
+        for bad_len in (0, 1, 15, 17, params["len"] - 1, params["len"] + 1, 33, 40):
+            badent = rand_bytes(rng, bad_len)
+            for how in ("text", "text+newline"):
+                rb_ = clihelp.run(["mnemonic", "--from-entropy", clihelp.fmt_flag(fmt)], clihelp.rep(badent, fmt) + (b"\n" if how == "text+newline" and fmt != "raw" else b""))
+                ctx.count("cli.bad_entropy_lengths")
+                if rb_["ok"] and rb_["out"].strip():
+                    ctx.violation(f"cli/from-entropy-accepts-invalid-length/{'zero' if bad_len == 0 else 'nonzero'}/fmt:{fmt}", f"bits mnemonic --from-entropy with {bad_len} bytes ({fmt}) printed {rb_['out'][:60]!r}")
         # an entropy of a valid length plus one framing byte must be REFUSED, not silently trimmed
         if fmt == "raw":
             r3 = clihelp.run(["mnemonic", "--from-entropy", "-1"], ent + b"\n")
